@@ -411,8 +411,13 @@ pub struct Outcome {
     pub exit: i32,
 }
 
+/// where evidence and new replay files go (default /verif; mutant rigs set VH_OUT to keep /verif clean)
+pub fn out_dir() -> PathBuf {
+    std::env::var_os("VH_OUT").map(PathBuf::from).unwrap_or_else(|| PathBuf::from(VERIF))
+}
+
 pub fn write_replay(id: &str, sig: &str, detail: &str, case: &Value) -> PathBuf {
-    let dir = Path::new(VERIF).join("replays").join(id);
+    let dir = out_dir().join("replays").join(id);
     let _ = std::fs::create_dir_all(&dir);
     let path = dir.join(format!("{:016x}.json", hash_str(sig)));
     let body = json!({"property": id, "sig": sig, "detail": detail, "case": case});
@@ -654,7 +659,7 @@ pub fn check(m: Arc<dyn DynMonitor>, tier: Tier, seed: u64, scrut_bin: PathBuf) 
         "wall_s": (wall * 100.0).round() / 100.0,
         "violations": unlisted,
     });
-    let ev_dir = Path::new(VERIF).join("evidence");
+    let ev_dir = out_dir().join("evidence");
     let _ = std::fs::create_dir_all(&ev_dir);
     let _ = std::fs::write(
         ev_dir.join(format!("{id}.json")),
